@@ -71,6 +71,9 @@ pub struct System {
     /// when non-empty: thread i is a REAL `copia hub-sync` client process (free-running, inert under
     /// the interposer) whose `copia serve` child is the scheduled process; `programs` is ignored
     pub external: Vec<ExtClient>,
+    /// servers whose START-UP (creating the control directory, anything else the server does before its
+    /// first request) is part of the explored schedule instead of being run to completion up front
+    pub late: Vec<usize>,
 }
 
 #[derive(Clone, Debug)]
@@ -118,6 +121,8 @@ struct Srv {
     last_list: Option<BTreeMap<String, Hash>>,
     replies_seen: usize,
     awaiting: Option<usize>, // op index whose reply is outstanding
+    hello_sent: bool,
+    hello_pending: bool,
     killed: bool,
     trace: Vec<String>,
 }
@@ -319,7 +324,7 @@ pub fn run_schedule(env: &WorkerEnv, sys: &System, opts: &RunOpts) -> Exec {
     // fresh hub tree
     let _ = std::fs::remove_dir_all(&env.root);
     let _ = std::fs::create_dir_all(&env.root);
-    for (p, b) in &sys.init {
+    for (p, b) in sys.init.iter().filter(|(p, _)| !p.contains("<pid")) {
         let full = env.root.join(p);
         if let Some(d) = full.parent() {
             let _ = std::fs::create_dir_all(d);
@@ -394,11 +399,28 @@ pub fn run_schedule(env: &WorkerEnv, sys: &System, opts: &RunOpts) -> Exec {
         if let Some(so) = &stdout {
             set_nonblocking(so.as_raw_fd());
         }
-        srv.push(Srv { child: c, stdin, stdout, ctl: conns[i].take().unwrap_or_else(|| machinery_error("conn")), parked: Parked::At("start".into(), String::new(), String::new()), outbuf: Vec::new(), parsed_upto: 0, next_op: 0, pending_pieces: Vec::new(), last_list: None, replies_seen: 0, awaiting: None, killed: false, trace: Vec::new() });
+        srv.push(Srv { child: c, stdin, stdout, ctl: conns[i].take().unwrap_or_else(|| machinery_error("conn")), parked: Parked::At("start".into(), String::new(), String::new()), outbuf: Vec::new(), parsed_upto: 0, next_op: 0, pending_pieces: Vec::new(), last_list: None, replies_seen: 0, awaiting: None, hello_sent: false, hello_pending: false, killed: false, trace: Vec::new() });
+    }
+    // leftovers of EARLIER server processes that happened to have the same pid (pid reuse): init entries whose
+    // name contains <pidN> are created now that server N's pid is known
+    for (p, b) in sys.init.iter().filter(|(p, _)| p.contains("<pid")) {
+        let mut name = p.clone();
+        for (i, s) in srv.iter().enumerate() {
+            name = name.replace(&format!("<pid{i}>"), &s.child.id().to_string());
+        }
+        let full = env.root.join(&name);
+        if let Some(d) = full.parent() {
+            let _ = std::fs::create_dir_all(d);
+        }
+        let _ = std::fs::write(&full, b);
     }
     // start-up phase, one server at a time, not part of the explored schedule:
     // run to the first read of stdin, deliver magic + Hello, run to the next read of stdin.
-    for s in srv.iter_mut() {
+    for (si, s) in srv.iter_mut().enumerate() {
+        if sys.late.contains(&si) && !ext {
+            continue; // this server's start-up is scheduled like everything else
+        }
+        s.hello_sent = true;
         s.go();
         loop {
             s.wait_parked();
@@ -511,6 +533,20 @@ pub fn run_schedule(env: &WorkerEnv, sys: &System, opts: &RunOpts) -> Exec {
                 quiesce(s.child.id());
                 label = format!("{t}: server reads its client's next bytes");
             }
+            Parked::WantInput if !s.hello_sent => {
+                let mut hello = crate::wire::MAGIC.to_vec();
+                hello.extend(frame_of(&Request::Hello { version: 1 }));
+                if let Some(w) = s.stdin.as_mut() {
+                    let _ = w.write_all(&hello);
+                    let _ = w.flush();
+                }
+                s.hello_sent = true;
+                s.hello_pending = true;
+                label = format!("{t}: send prologue");
+            }
+            Parked::WantInput if s.hello_pending && stdin_unread(s.child.id()) > 0 => {
+                label = format!("{t}: read buffered input");
+            }
             Parked::WantInput => {
                 if s.stdin.is_some() && !s.pending_pieces.is_empty() && stdin_unread(s.child.id()) > 0 {
                     // bytes delivered earlier are still in the pipe: this read consumes them first
@@ -600,6 +636,9 @@ pub fn run_schedule(env: &WorkerEnv, sys: &System, opts: &RunOpts) -> Exec {
         for r in rs {
             match r {
                 Err(e) => ex.reply_errors.push(format!("client {t}: {e}")),
+                Ok(Reply::Hello) if s.hello_pending => {
+                    s.hello_pending = false;
+                }
                 Ok(rep) => {
                     if let Reply::Fingerprints(m) = &rep {
                         s.last_list = Some(m.clone());
